@@ -884,7 +884,8 @@ main(int argc, char **argv)
   static const unsigned sb[] = { 1, 2 };
   const char *cases_file = NULL, *outdir = NULL;
   const char *mode, *stdin_file = NULL, *save_out = NULL, *save_err = NULL, *argv0 = "lbzip2";
-  int policies[3], npol = 0, i, trace = 0, want_cps = 0;
+  static int policies[5100];
+  int npol = 0, i, trace = 0, want_cps = 0;
   double deadline = 0, t0 = now();
   uint32_t horizon = 0;
   FILE *out;
@@ -907,7 +908,15 @@ main(int argc, char **argv)
       else {
         char *d = strdup(v), *tok;
         for (tok = strtok(d, ","); tok; tok = strtok(NULL, ","))
-          if (tok[0] == 'P' && tok[1] >= '0' && tok[1] <= '2' && npol < 3) policies[npol++] = tok[1] - '0';
+          if (tok[0] == 'P' && tok[1] >= '0' && tok[1] <= '9' && npol < 5100) policies[npol++] = atoi(tok + 1);
+          else if (!strncmp(tok, "prio:", 5)) {
+            /* every strict-priority scheduler over the first K threads: policies 3 .. 3+K!-1 */
+            int K = atoi(tok + 5), f = 1, q;
+            if (K < 1 || K > 7) { fprintf(stderr, "lbzx: prio:K needs 1 <= K <= 7\n"); return 2; }
+            for (q = 2; q <= K; q++) f *= q;
+            base_cfg.nprio = K;
+            for (q = 0; q < f && npol < 5100; q++) policies[npol++] = 3 + q;
+          }
       }
     }
     else if (!strcmp(a, "--dev")) {
@@ -921,6 +930,7 @@ main(int argc, char **argv)
         }
       }
     }
+    else if (!strcmp(a, "--nprio")) base_cfg.nprio = atoi(ARG());
     else if (!strcmp(a, "--bound")) bound = atoi(ARG());
     else if (!strcmp(a, "--jobs")) jobs = atoi(ARG());
     else if (!strcmp(a, "--deadline")) deadline = atof(ARG());
@@ -949,6 +959,20 @@ main(int argc, char **argv)
       const char *v = ARG();
       if (strstr(v, "err")) base_cfg.fenv |= 1;
       if (strstr(v, "kill")) base_cfg.fenv |= 2;
+    }
+    else if (!strcmp(a, "--senv")) {
+      const char *v = ARG();
+      if (strstr(v, "epipe")) base_cfg.senv |= 1;
+      if (strstr(v, "eio")) base_cfg.senv |= 2;
+    }
+    else if (!strcmp(a, "--inherit-mask")) {
+      const char *v = ARG();
+      if (strstr(v, "usr1")) base_cfg.inherit_mask |= 1ull << SIGUSR1;
+      if (strstr(v, "usr2")) base_cfg.inherit_mask |= 1ull << SIGUSR2;
+      if (strstr(v, "int")) base_cfg.inherit_mask |= 1ull << SIGINT;
+      if (strstr(v, "term")) base_cfg.inherit_mask |= 1ull << SIGTERM;
+      if (strstr(v, "pipe")) base_cfg.inherit_mask |= 1ull << SIGPIPE;
+      if (strstr(v, "xfsz")) base_cfg.inherit_mask |= 1ull << SIGXFSZ;
     }
     else if (!strcmp(a, "--cases")) cases_file = ARG();
     else if (!strcmp(a, "--outdir")) outdir = ARG();
@@ -1167,7 +1191,7 @@ main(int argc, char **argv)
     struct xitem *tmp = NULL;
     size_t nit = 0, capit = 0;
     int p;
-    uint32_t base_ncp[3] = { 0, 0, 0 };
+    static uint32_t base_ncp[5100];
     for (p = 0; p < npol; p++) {
       struct vs_config cfg = base_cfg;
       struct result r;
@@ -1270,7 +1294,7 @@ main(int argc, char **argv)
     for (i = 0; i <= bound && i <= VS_MAXDEV; i++)
       fprintf(out, "%s%llu", i ? "," : "", (unsigned long long)X->exec_by_depth[i]);
     fputs("],\"cp_by_kind\":[", out);
-    for (i = 0; i < 5; i++) fprintf(out, "%s%llu", i ? "," : "", (unsigned long long)X->cp_by_kind[i]);
+    for (i = 0; i < 7; i++) fprintf(out, "%s%llu", i ? "," : "", (unsigned long long)X->cp_by_kind[i]);
     fputs("],\"events\":{", out);
     for (i = 0; i < 16; i++) fprintf(out, "%s\"%s\":%llu", i ? "," : "", vs_event_names[i], (unsigned long long)X->ev_total[i]);
     fprintf(out, "},\"classes_capped\":%s,\"classes\":[", X->ncls >= MAXCLS ? "true" : "false");
